@@ -216,6 +216,10 @@ impl FileManager {
     ) -> Result<(), RuntimeError> {
         // TODO if sum(field width) > rec_len, throw error
         let file_info = self.try_get_file_info(&handle)?;
+        if file_info.random.is_none() {
+            // FIELD is only for files opened FOR RANDOM
+            return Err(RuntimeError::BadFileMode);
+        }
         file_info.add_field_list(fields);
         Ok(())
     }
